@@ -608,13 +608,9 @@ func errsDiff(file string, m *ref.Result, r *mon.Result) *diff {
 			continue
 		}
 		e := m.Errs[i]
-		if e.IsPanic {
-			// the property does not pin the position reported for a recovered panic (only that it is
-			// the last error, wraps the panic value and carries a well-formed prefix): same inner suffices
-			if r.Errs[i].Inner == e.Inner && strings.HasSuffix(got[i], ": "+e.Inner) {
-				continue
-			}
-		}
+		// a recovered panic is reported like every other error: prefixed with the position the parser
+		// was at when it arose (for an action the end of its match, for a predicate or state block
+		// the current position) and the rule on top of the rule stack
 		if e.AltLine != 0 {
 			alt := e
 			alt.Line, alt.Col = e.AltLine, e.AltCol
